@@ -271,6 +271,7 @@ func runC18(c *Ctx) {
 	// the upload object is named <Week>/<X>.json after validate accepted the report: the name
 	// stays inside the bucket because an accepted week is a date (no separators, no "..")
 	c12AcceptHeader(c, gd, gd.Func("cmd/telemetrygodev", "validate"), "C18.names-confined")
+	c18WhoCreates(c, gd)
 	// ---- names confined ---------------------------------------------------------
 	n := 0
 	for _, fn := range gd.srcFns {
@@ -307,15 +308,8 @@ func runC18(c *Ctx) {
 	}
 	r.Check("C18.names-confined", "Object call sites enumerated", "-", n >= 7, fmt.Sprintf("%d call sites in godev/cmd", n))
 
-	// ---- single path construction ---------------------------------------------------
+	c18FSObjectPath(c, gd, "C18.names-confined")
 	nfo := gd.Func("internal/storage", "NewFSObject")
-	okJoin := false
-	for _, cs := range callsIn(nfo, "path/filepath.Join") {
-		d := describeArg(cs, 0)
-		okJoin = d == "[param:b.dir, param:b.bucket, path/filepath.FromSlash(param:name)]"
-		r.Check("C18.names-confined", "NewFSObject/path = Join(dir, bucket, FromSlash(name))", gd.Pos(cs.Pos()), okJoin, "got "+d)
-	}
-	r.Check("C18.names-confined", "NewFSObject/builds the path with filepath.Join", gd.Pos(nfo.Pos()), okJoin, "Join cleans the result; string concatenation would not")
 	for _, cs := range gd.callersOf(nfo) {
 		r.Check("C18.names-confined", "caller of NewFSObject: "+fname(cs.Parent()), gd.Pos(cs.Pos()), fname(cs.Parent()) == "(*godev/internal/storage.FSBucket).Object", "only FSBucket.Object creates file-system objects")
 	}
@@ -575,4 +569,43 @@ func isLoopMechanics(f Fact) bool {
 		}
 	}
 	return false
+}
+
+// c18FSObjectPath: the file behind an object is Join(dir, bucket, FromSlash(name)) — the name
+// as given, not a rewritten one (shared with C12: the object is named by the report's week and X).
+func c18FSObjectPath(c *Ctx, gd *Module, rule string) {
+	r := c.R
+	// ---- single path construction ---------------------------------------------------
+	nfo := gd.Func("internal/storage", "NewFSObject")
+	okJoin := false
+	for _, cs := range callsIn(nfo, "path/filepath.Join") {
+		d := describeArg(cs, 0)
+		okJoin = d == "[param:b.dir, param:b.bucket, path/filepath.FromSlash(param:name)]"
+		r.Check(rule, "NewFSObject/path = Join(dir, bucket, FromSlash(name))", gd.Pos(cs.Pos()), okJoin, "got "+d)
+	}
+	r.Check(rule, "NewFSObject/builds the path with filepath.Join", gd.Pos(nfo.Pos()), okJoin, "Join cleans the result; string concatenation would not")
+}
+
+// c18WhoCreates: a file appears in a bucket's directory only because an object was written:
+// the listing returns every regular file, so a file the storage package creates on its own (a
+// marker, a .gitignore) is listed as an object nobody stored and can be read back as one.
+func c18WhoCreates(c *Ctx, gd *Module) {
+	r := c.R
+	n := 0
+	for _, fn := range gd.PkgFuncs("internal/storage") {
+		for _, cs := range callsIn(fn, "os.WriteFile", "os.Create", "os.OpenFile", "os.CreateTemp", "io/ioutil.WriteFile", "os.Symlink", "os.Link", "os.Rename") {
+			top := fnameTop(fn)
+			isWriter := strings.HasSuffix(top, "FSObject).NewWriter")
+			creates := true
+			if calleeName(cs.Common()) == "os.OpenFile" && !gd.openFlagsHave(cs.Common(), "O_CREATE") {
+				creates = false
+			}
+			if !creates {
+				continue
+			}
+			n++
+			r.Check("C18.listing-exact", "file created in "+top, gd.Pos(cs.Pos()), isWriter, "only (*FSObject).NewWriter may create files under a bucket: anything else shows up in Objects() as an object nobody stored")
+		}
+	}
+	r.Check("C18.listing-exact", "file-creating calls of the storage package enumerated", "-", n >= 1, fmt.Sprintf("%d", n))
 }
